@@ -63,6 +63,16 @@ def shard_loader():
 
 
 def check_program(R, rng, tmp, src, calls, label):
+    from ..driver import time_limit, CaseTimeout
+    try:
+        with time_limit(120):
+            _check_program(R, rng, tmp, src, calls, label)
+    except CaseTimeout:
+        nslapi.VM._VERIF_OBSERVER = None
+        R.count("dropped_case_timeout")
+
+
+def _check_program(R, rng, tmp, src, calls, label):
     """calls: [(fname, args, globals)]"""
     obs = vmobs.Observer()
     with open(os.path.join(tmp, "p.nsl"), "w") as f:
